@@ -455,6 +455,16 @@ def _run_check(mod, modname, prop_id, tier, seed, jobs, scratch, t0,
     print(summ)
     if len(tot["classes"]) <= 1 and tot["evaluations"] > 1:
         print("NOTE: a single outcome class was observed")
+    # vacuity guard: the outcome classes a module declares as required must
+    # have been observed, unless violations explain their absence
+    if only_unit is None and exit_code == 0:
+        missing = [c for c in getattr(mod, "REQUIRED_CLASSES", [])
+                   if not any(k == c or k.startswith(c + "/")
+                              for k in tot["classes"])]
+        if missing and not known_counts:
+            print("HARNESS-ERROR property=%s vacuous exploration: outcome "
+                  "classes never observed: %s" % (prop_id, missing))
+            exit_code = 2
     for ln in lines:
         print(ln)
     return exit_code
@@ -504,6 +514,3 @@ def main(argv=None):
         return run_replay(a.prop, a.replay)
     return run_check(a.prop, a.tier, seed, a.jobs, a.unit)
 
-
-if __name__ == "__main__":
-    sys.exit(main())
